@@ -351,7 +351,9 @@ class BaseTemplate:
 
         filename = str(self.filename)
         if filename and filename != BaseTemplate.filename:
-            digest = os.path.splitext(filename)[0] + '-' + digest
+            # The whole name takes part (it is compiled into the
+            # module), including the extension.
+            digest = filename + '-' + digest
 
         return digest
 
